@@ -88,7 +88,7 @@
     C19_create_digest_sm3, C19_validator_bios_only_witness, C19_stitch_bios_only_witness).
     What remains hypothesis is listed in props/C19.json "assumptions" (the mapped region ends
     at the end of the image for validator / stitching, segments inside the image, ...). *)
-From CSS Require Import Lib.Base Model.IBB Proofs.IBB.
+From CSS Require Import Lib.Base Model.IBB Proofs.IBB Proofs.IBBCompose.
 
 (* ================================================================== *)
 (** ** 1. the address map (tools.CalcImageOffset) *)
@@ -224,6 +224,40 @@ Theorem C19_digest_reads_start_inside : forall l img segs p,
   exists off, calc_offset l (zlen img) (sg_base s) = Ok off /\ 0 <= off < zlen img.
 Proof. exact digest_preimage_starts_inside. Qed.
 Print Assumptions C19_digest_reads_start_inside.
+
+(** THE DIGEST IS COMPOSITIONAL IN THE SEGMENT LIST: what an entry contributes depends on
+    that entry alone -- not on where the previous entry ended, whether it was excluded, or
+    on anything before or after.  The preimage of a concatenated list is the concatenation
+    of the preimages (same first error otherwise); an excluded entry ANYWHERE in the list
+    changes neither the outcome (value or error kind) nor the digest; a hashed entry between
+    any two lists contributes exactly the bytes it contributes alone. *)
+Theorem C19_digest_preimage_app : forall l img a b,
+  digest_preimage l img (a ++ b) =
+  bind (digest_preimage l img a) (fun pa =>
+  bind (digest_preimage l img b) (fun pb => Ok (pa ++ pb))).
+Proof. exact digest_preimage_app. Qed.
+Print Assumptions C19_digest_preimage_app.
+
+Theorem C19_digest_excluded_entry_irrelevant : forall ver alg l img a s b,
+  excluded s = true ->
+  get_ibbs_digest ver alg l img (a ++ s :: b) = get_ibbs_digest ver alg l img (a ++ b).
+Proof. exact get_ibbs_digest_excluded. Qed.
+Print Assumptions C19_digest_excluded_entry_irrelevant.
+
+Theorem C19_digest_segment_alone : forall l img a s b,
+  excluded s = false ->
+  digest_preimage l img (a ++ s :: b) =
+  bind (digest_preimage l img a) (fun pa =>
+  bind (read_segment l img s) (fun x =>
+  bind (digest_preimage l img b) (fun pb => Ok (pa ++ x ++ pb)))).
+Proof. exact digest_preimage_segment_alone. Qed.
+Print Assumptions C19_digest_segment_alone.
+
+(** not vacuous: an excluded entry directly followed by a hashed one that starts where it
+    ends (the layout real manifests have) -- the hashed bytes are those of the second *)
+Example C19_digest_excluded_then_adjacent :
+  digest_preimage LBiosOnly (seqZ 0 64) [mkSeg (4294967296 - 48) 16 1; mkSeg (4294967296 - 32) 16 0] = Ok (seqZ 32 16).
+Proof. vm_compute. reflexivity. Qed.
 
 (** CreateIBBDigest: one digest per algorithm of the manifest's list, in order, all over the
     same bytes. *)
